@@ -201,13 +201,13 @@ def prover_pieces():
         fns("src/utils/generic.rs", None, None, stubs=["nonce", "compute_generator_padding"]),
         fns("src/range_parameters.rs", "impl RangeParameters<P> {", "RangeParameters", stubs=RP_GETTER_STUBS, subst=IMPL_ITER_SUBST),
         with_fns(PC_COMMIT, stubs=["commit"]),
-        fns("src/range_proof.rs", RP_HEADER, "RangeProof", fns=["prove_with_rng"], mapcollect=True),
+        fns("src/range_proof.rs", RP_HEADER, "RangeProof", fns=["prove_with_rng"], mapcollect=True, hoist=["prove_with_rng:@ret"]),
     ]
 
 
 UNITS["prove"] = {
     "prelude": PRELUDE_ALL,
-    "contracts": ["ctors.vc", "gens.vc", "transcripts.vc", "nonce.vc", "commit.vc", "prove_safety.vc", "prove_structure.vc", "prove_rng.vc"],
+    "contracts": ["ctors.vc", "gens.vc", "transcripts.vc", "nonce.vc", "commit.vc", "prove_safety.vc", "prove_structure.vc", "prove_rng.vc", "prove_transcript.vc"],
     "pieces": prover_pieces(),
     "safety": {"*": ["C01", "C06"]},
     "rlimit": 150,
@@ -243,4 +243,15 @@ UNITS["gens_new"] = {
         fns("src/generators/bulletproof_gens.rs", "impl BulletproofGens<P> {", "BulletproofGens", fns=["new"], mapcollect=True, subst=GENS_NEW_SUBST),
     ],
     "safety": {"*": ["C11"]},
+}
+
+# ---------------------------------------------------------------- U17: pure lemmas over the contracts (no extracted code)
+UNITS["lemmas"] = {
+    "prelude": PRELUDE_ALL,
+    "contracts": ["ctors.vc", "gens.vc"],
+    "pieces": types() + RPT_ITEMS + [
+        text("spec/tproto_trait.rs"), text("spec/sproto_trait.rs"), text("spec/spec_transcript.rs"), text("spec/spec_mask.rs"), text("spec/spec_wf.rs"),
+        text("spec/spec_verify.rs"), text("spec/spec_prove.rs"), text("spec/lemmas_c09.rs"),
+    ],
+    "safety": {},
 }
